@@ -116,6 +116,14 @@ class AllocNull:
                 pidx['v%d' % f['params'][i]['id']] = i
         res = {'retnull': False, 'pderef': set()}
         A = self
+        # (object variable, field, value variable, record) for stores `o->F = v` with v a tracked constructor result: used at returns of o
+        partial, partial_rep = [], set()
+        for b_, ev_ in self.P.events(f):
+            t_ = ev_['e']
+            if t_.get('k') == 'asg' and t_.get('op') == '=':
+                l_ = strip(t_['l'])
+                if isinstance(l_, dict) and l_.get('k') == 'mem' and l_.get('arrow') and ap(l_.get('b')) and ap(t_['r']) in tr and l_.get('rec'):
+                    partial.append((ap(l_['b']), l_['f'], ap(t_['r']), l_['rec']))
 
         def mentions(t):
             for y in walk(t):
@@ -238,6 +246,12 @@ class AllocNull:
                             org = env.ts.get('m:' + ra) or env.ts.get('m:' + env.canon(ra))
                             if org is not None and env.nullf(ra) != 'N':
                                 set_mark(e, a, org)
+                                l0 = strip(t['l'])
+                                if report and org[0] == 'ctor' and isinstance(l0, dict) and l0.get('k') == 'mem' and (l0.get('rec'), l0.get('f')) in getattr(A, 'mdfields', ()):
+                                    run.oblige(A.rule, False, '%s:%s:stored-unchecked' % (name, org[1]))
+                                    run.violation(A.rule, name, ev['loc'], 'unchecked:%s:stored-into-%s' % (org[1], l0['f']),
+                                                  'the untested result of %s() is stored into ->%s of an object that outlives this function; %s dereferences that field on every '
+                                                  'path without a test: the failed allocation crashes later, far from here' % (org[1], l0['f'], A.mdfields[(l0['rec'], l0['f'])]), ctx.path())
                 return [e]
             if k == 'decl':
                 e = apply_generic(ev, env, R)
@@ -260,6 +274,17 @@ class AllocNull:
                             if org is not None and env.nullf(ra) != 'N':
                                 set_mark(e, a, org)
                 return [e]
+            if k == 'ret' and 'e' in t and report and getattr(A, 'mdfields', None):
+                r0 = strip(t['e'])
+                o = ap(r0) if isinstance(r0, dict) else None
+                if o and env.nullf(o) != 'Z':
+                    for (ov, fld, v, rec) in partial:
+                        if ov == o and env.nullf(v) == 'Z' and (rec, fld) in A.mdfields and (ev['loc'], fld) not in partial_rep:
+                            partial_rep.add((ev['loc'], fld))
+                            run.oblige(A.rule, False, '%s:returned-without-%s' % (name, fld))
+                            run.violation(A.rule, name, ev['loc'], 'object-returned-without:%s' % fld,
+                                          'the new object is returned although the allocation meant for its ->%s failed on this path (the field stays NULL); %s dereferences '
+                                          'that field on every path without a test: the caller gets an object that crashes the library later' % (fld, A.mdfields[(rec, fld)]), ctx.path())
             if k == 'ret' and 'e' in t:
                 r = strip(t['e'])
                 if isinstance(r, dict):
@@ -353,6 +378,16 @@ def run(run, P, only=None):
     run.rule('R-ALLOC-NULL')
     A = AllocNull(run, P)
     A.compute()
+    # fields that some library function dereferences on every path without a test (must-dereference summaries of R-NULL-BELIEF)
+    from rules import r_nullbelief
+    A.mdfields = {}
+    for g, ent in r_nullbelief.summaries(P).items():
+        gf = P.funcs.get(g)
+        if not gf:
+            continue
+        for (i, suf), (loc, how) in ent.items():
+            if suf.startswith('->') and '->' not in suf[2:] and i < len(gf['params']) and gf['params'][i].get('prec'):
+                A.mdfields.setdefault((gf['params'][i]['prec'], suf[2:]), '%s()' % g)
     ctors = sorted(A.maynull - SEED)
     run.stats['mayfail_constructors'] = len(A.maynull)
     run.stats['functions_deref_param_untested'] = sum(1 for n in A.derefsum if A.derefsum[n])
